@@ -19,9 +19,12 @@ RULE = ("cases = mixer histories (keep, zero value, then steps add(delta, data) 
         "add(negative delta) / next*k / take(k) / for-loop, finally a drain to the end) and "
         "ControlStream histories (assignments interleaved with reads of the stream itself "
         "and of an expression built on it) drawn by Hypothesis, long runs of equal "
-        "fractional deltas (drift), and an exhaustive grid of two-/three-event mixes; "
+        "fractional deltas (drift), mixes of three and more tagged events under zero values whose "
+        "+ is exact but not commutative (tuples, strings, integer affine maps), and an exhaustive "
+        "grid of two-/three-event mixes; "
         "oracle = MixerRef (exact cumulative times, nearest-sample start not before the "
-        "addition, per-sample sum, end rule) compared sample by sample in exact arithmetic; "
+        "addition, per-sample sum taken in the order the events start - ties in the order they "
+        "were added -, end rule) compared sample by sample in exact arithmetic; "
         "non-trivial = two events overlap in time or an event is added late (mixer), an "
         "assignment lies between two reads (ControlStream); distinct = distinct case hash")
 ASSUMPTIONS = [
@@ -31,6 +34,7 @@ ASSUMPTIONS = [
   "the mixer is read with next()/for/take(k <= what is left): short take() is property C03's subject",
   "peek()/copy() of a mixer or ControlStream are not used (they buffer samples by design)",
   "event data are finite iterables whose items support + with the zero value",
+  "'the zero value plus the items due at n of every event i': for a + that is not commutative the items are added to the zero value from the left to the right in the order of the start times T_i (non-decreasing in i, so this is the order of addition)",
   "after the mixer has ended (keep off) it stays ended, whatever is added later",
 ]
 
@@ -38,7 +42,8 @@ CAP = 4000   # hard bound on samples pulled in one case
 
 
 # --------------------------------------------------------------------------
-# value systems: scalars (int / float / Q / str) and a mutable vector type
+# value systems: scalars (int / float / Q / str / tuple), a mutable vector type and a
+# non-commutative exact type (integer affine maps under composition)
 # --------------------------------------------------------------------------
 class Vec(object):
   """Array-like sample: ``+`` builds a new object, ``+=`` works in place
@@ -82,10 +87,10 @@ class Scalars(object):
 
   @staticmethod
   def eq(realv, modelv):
-    if isinstance(modelv, str):
-      # str "samples": + is not commutative and the property fixes no order
-      # among the events, so only the collection of pieces is compared
-      return isinstance(realv, str) and sorted(realv) == sorted(modelv)
+    # str / tuple "samples": + is not commutative.  The statement fixes the sum: the zero value
+    # plus the item of every event i whose start time T_i has been reached, and T_i is
+    # non-decreasing in i, so the items are added in the order the events start (= the order of
+    # addition, which also breaks the ties of equal start samples): compared exactly.
     return same1(realv, modelv)
 
 
@@ -104,6 +109,43 @@ class Vectors(object):
   def eq(realv, modelv):
     return (isinstance(realv, Vec) and len(realv.items) == len(modelv)
             and all(same1(x, y) for x, y in zip(realv.items, modelv)))
+
+
+class Aff(object):
+  """Exact sample type whose ``+`` is associative but NOT commutative: the affine map
+  x -> a*x + b over the integers, ``f + g`` being the composition f(g(x)).  (No __radd__,
+  no __iadd__: the zero value of such a mixer is an Aff as well.)"""
+
+  def __init__(self, a, b):
+    self.a, self.b = a, b
+
+  def __add__(self, other):
+    if not isinstance(other, Aff):
+      return NotImplemented
+    return Aff(self.a * other.a, self.a * other.b + self.b)
+
+  def __repr__(self):
+    return "Aff(%r, %r)" % (self.a, self.b)
+
+
+class Affine(object):
+  name = "affine"
+
+  @staticmethod
+  def real(v):
+    return Aff(v[0], v[1])
+
+  @staticmethod
+  def plus(a, b):
+    return (a[0] * b[0], a[0] * b[1] + a[1])
+
+  @staticmethod
+  def eq(realv, modelv):
+    return (isinstance(realv, Aff) and type(realv.a) is int and type(realv.b) is int
+            and (realv.a, realv.b) == tuple(modelv))
+
+
+_VS = {"vector": Vectors, "affine": Affine}
 
 
 # --------------------------------------------------------------------------
@@ -179,7 +221,7 @@ _DATA_KINDS = {
 
 
 def run_mixer(case):
-  vs = Vectors if case.get("vs") == "vector" else Scalars
+  vs = _VS.get(case.get("vs"), Scalars)
   keep = case["keep"]
   zero_m = case["zero"]
   zero_r = vs.real(zero_m)
@@ -344,6 +386,20 @@ def run_mixer(case):
     fail("the zero value object was modified: now %r" % (zero_r,))
   if overlap[0]:
     labels.add("overlap")
+  # the order of the sum is on show when + is order-sensitive and an event ends while two or
+  # more events that started after it (or with it, but added later) go on playing
+  ordered = vs is Affine or isinstance(zero_m, (str, tuple))
+  if ordered:
+    labels.add("order-sensitive +:" + type(zero_m if vs is Scalars else zero_r).__name__)
+  for i, (s, d) in enumerate(ref.events):
+    n = s + len(d)
+    if n + 2 <= ref.pos and sum(1 for s2, d2 in ref.events[i + 1:] if s2 <= n and s2 + len(d2) >= n + 2) >= 2:
+      labels.add("earlier event ends under two later ones")
+      if ordered:
+        labels.add("summation order observable")
+      break
+  if max([ref.playing_at(n) for n in range(min(ref.pos, CAP))] or [0]) >= 3:
+    labels.add("three or more play at once")
   nontrivial = overlap[0] or ref.late > 0
   return {"nontrivial": nontrivial, "labels": sorted(labels)}
 
@@ -620,7 +676,86 @@ def strat_mixer(tier):
   scase = st.fixed_dictionaries(dict(      # str "samples": a non-numeric zero value
     keep=st.booleans(), zero=st.sampled_from(["", "z"]), ctor=st.just("kw"),
     steps=_steps(_delta_q, st.sampled_from(["a", "b", "c", ""]), maxlen, 4)))
-  return st.one_of(qcase, qcase, qcase, fcase, icase, scase)
+  tcase = st.fixed_dictionaries(dict(      # tuple "samples": + concatenates, zero is a tuple
+    keep=st.booleans(), zero=st.sampled_from([(), (), ("z",)]), ctor=st.sampled_from(["kw", "pos", "mixed"]),
+    steps=_steps(_delta_q, st.sampled_from([("a",), ("b",), ("c",), ("d", "e"), ()]), maxlen, 5)))
+  return st.one_of(qcase, qcase, qcase, fcase, icase, scase, tcase)
+
+
+# --------------------------------------------------------------------------
+# order of the sum: zero values / items whose + is exact but not commutative
+# --------------------------------------------------------------------------
+_LETTERS = "abcdefghijklmnopqrstuvwxy"      # ("z" is left to the zero values)
+_ORD_ZEROS = {"tuple": [(), (), ("z",)], "str": ["", "", "z"], "affine": [(1, 0), (1, 3), (2, 1)]}
+
+
+def _ord_items(flavour, k, length, salt):
+  """Items of the k-th event of an order-sensitive mix: every item names its event and its
+  position, so any permutation of the playing events changes the sum."""
+  tag = _LETTERS[k % len(_LETTERS)]
+  if flavour == "str":
+    return ["%s%d" % (tag, j % 10) for j in range(length)]
+  if flavour == "tuple":
+    if salt % 4 == 3:                        # items of width 2 / 0 among those of width 1
+      return [((tag, j) if j % 3 else ()) for j in range(length)]
+    return [("%s%d" % (tag, j),) for j in range(length)]
+  # affine maps: slopes 2, 3, 5 (1 now and then), offsets that name event and position
+  return [((1 if (salt + j) % 5 == 4 else (2, 3, 5)[(k + salt) % 3]), 7 * k + j + 1) for j in range(length)]
+
+
+def _ordered_case(raw):
+  flavour = raw["flavour"]
+  first = raw["first"]
+  lens = [l for _, l, _ in first]
+  if raw["shape"] == "asc":                  # the earlier an event starts, the sooner it ends
+    lens = sorted(lens)
+  elif raw["shape"] == "head":               # the first one is the shortest, whatever follows
+    m = lens.index(min(lens))
+    lens[0], lens[m] = lens[m], lens[0]
+  steps = []
+  k = [0]
+
+  def items(length, salt):
+    k[0] += 1
+    return _ord_items(flavour, k[0] - 1, length, salt)
+  for (delta, _, kind), length in zip(first, lens):
+    steps.append(("add", delta, items(length, k[0]), kind))
+  for stp in raw["rest"]:
+    if stp[0] == "add":
+      steps.append(("add", stp[1], items(stp[2], stp[4]), stp[3]))
+    elif stp[0] == "add_chain":
+      steps.append(("add_chain", stp[1], items(stp[2], stp[5]), stp[3], items(stp[4], stp[5] + 1)))
+    else:
+      steps.append(stp)
+  case = dict(keep=raw["keep"], zero=_ORD_ZEROS[flavour][raw["zsel"]], ctor=raw["ctor"], steps=steps)
+  if flavour == "affine":
+    case["vs"] = "affine"
+  return case
+
+
+def strat_ordered(tier):
+  nmax = 6 if tier == "quick" else 9
+  maxlen = 8 if tier == "quick" else 18
+  delta = st.sampled_from([0] * 6 + [Q(0), 1, 1, Q(1, 2), Q(1, 2), Q(1, 3), Q(2, 3), Q(3, 2), 2, .5, 1.25])
+  later = st.sampled_from([0] * 4 + [Q(0), 1, Q(1, 2), Q(1, 3), Q(3, 2), 2, 3, Q(7, 2), .5, 2.5])
+  salt = st.integers(0, 19)
+  table = {
+    "add": st.tuples(st.just("add"), later, st.integers(0, 8), _kinds, salt),
+    "add_chain": st.tuples(st.just("add_chain"), later, st.integers(0, 5), delta, st.integers(1, 6), salt),
+    "next": st.tuples(st.just("next"), st.integers(1, 4)),
+    "for": st.tuples(st.just("for"), st.integers(0, 4)),
+    "take": st.tuples(st.just("take"), st.integers(0, 5)),
+    "neg": st.tuples(st.just("neg"), _neg_delta, st.just([])),
+    "setkeep": st.tuples(st.just("setkeep"), st.booleans()),
+  }
+  names = ["add"] * 6 + ["next"] * 3 + ["take"] * 2 + ["for", "add_chain", "neg", "setkeep"]
+  raw = st.fixed_dictionaries(dict(
+    flavour=st.sampled_from(["tuple", "tuple", "str", "str", "affine"]),
+    keep=st.booleans(), zsel=st.integers(0, 2), ctor=st.sampled_from(["kw", "pos", "mixed"]),
+    first=st.lists(st.tuples(delta, st.integers(0, 7), _kinds), min_size=3, max_size=nmax),
+    shape=st.sampled_from(["asc", "asc", "head", "any", "any"]),
+    rest=st.lists(st.sampled_from(names).flatmap(lambda nm: table[nm]), min_size=2, max_size=maxlen)))
+  return raw.map(_ordered_case)
 
 
 def strat_vector(tier):
@@ -707,6 +842,13 @@ CLAUSES = [
                  "delta:Q": .1, "delta:int": .08},
          doc="mixer histories (additions before and during playback, keep on/off, zero values, "
              "delta types) vs MixerRef, sample by sample"),
+  Clause("ordered", strat_ordered, run_mixer, quick=1500, thorough=15000,
+         floors={"summation order observable": .15, "three or more play at once": .25, "late add": .05,
+                 "order-sensitive +:tuple": .1, "order-sensitive +:str": .1, "order-sensitive +:Aff": .05},
+         doc="mixes of three and more tagged events under a zero value whose + is exact but not commutative "
+             "(tuple and str concatenation, composition of integer affine maps), earlier events often "
+             "ending while later ones go on, additions during playback: the sum is zero + items in the "
+             "order the events start (ties: order of addition)"),
   Clause("vector", strat_vector, run_mixer, quick=600, thorough=6000,
          floors={"overlap": .06, "late add": .04},
          doc="the same with an array-like zero/sample type whose += works in place "
